@@ -61,6 +61,32 @@ CHECKS = {
          '6*len+60 lexer steps, is a violation; the first quoted text of every syntax-error message must occur at the quoted line:column.',
     note=TRUSTED + 'exception taxonomy of calmjs.parse.exceptions; independent line table; wall-clock watchdog only as inconclusive.',
     design='DESIGN.md section 3, C12'),
+ 'C11': dict(
+    technique='reflective tree monitor after every accepted parse: node positions vs independent line table and the token extents of the parallel reference tree',
+    level='exploration',
+    text='After each accepted parse the tree is traversed by reflection (vars(node)); every node\'s lexpos/lineno/colno must agree under '
+         'ES5 line counting and lexpos must be the start of the node\'s first token or of its operator token (taken from the refjs twin of the '
+         'same shape); every _token_map entry must be a place where exactly that text occurs, with matching line/column. Inputs: corpus + '
+         'derivations in 5 layouts (multi-line tokens, mixed terminators, comments).',
+    note=TRUSTED + 'refjs extents; cases where the two trees differ are skipped and counted (C03 reports them).',
+    design='DESIGN.md section 3, C11'),
+ 'C16': dict(
+    technique='reflective structural oracle: multiset of node identities yielded by the real Walker vs reflection over vars(node); order, filter and extract vs walk-then-select',
+    level='exploration',
+    text='Trees parsed (with and without comment capture) from corpus and derivations that force every generator alternative are walked with '
+         'the real Walker; the yielded identities must equal the reflective set exactly once each, parents first, in a stable order; '
+         'filter == walk-then-select for 5 predicates; extract returns the n-th match or raises TypeError.',
+    note=TRUSTED + 'the reflective traversal in vk/tree.py as definition of "stored in any attribute".',
+    design='DESIGN.md section 3, C16'),
+ 'C17': dict(
+    technique='structural invariant at a quiescent point (equality of LALR and lexer tables across three builds) + differential run + helper monitor with planted stale modules and an import audit hook',
+    level='exploration',
+    text='The action/goto/production/lexer tables of (A) the parser loading generated modules, (B) a parser built in memory with '
+         'optimisation off and (C) parsers loading modules regenerated by reoptimize_all() after stale modules were planted are compared '
+         'for equality (equal tables imply equal behaviour on every input); texts are additionally run through A, B and C; the module '
+         'names Parser() imports are observed with sys.addaudithook and must be the ones generate_tab_names yields.',
+    note=TRUSTED + 'ply 3.11 table semantics (a state without entries is equivalent to an absent state).',
+    design='DESIGN.md section 3, C17'),
 }
 
 PENDING = 'monitor planned in DESIGN.md section 3 but not built yet in this round; no claim is made'
